@@ -23,6 +23,8 @@ pub struct Snapshot {
     pub utxo: BTreeMap<[u8; 59], bool>,
     /// by-height longest-chain index over the observed id range
     pub index: BTreeMap<u64, Hash>,
+    /// every hash the block ring holds per height (side blocks included)
+    pub ring: BTreeMap<u64, BTreeSet<Hash>>,
     /// stored blocks: hash -> (id, in_longest_chain)
     pub blocks: BTreeMap<Hash, (u64, bool)>,
     pub wallet_slips: BTreeSet<[u8; 59]>,
@@ -51,6 +53,10 @@ pub fn snapshot(chain: &Blockchain, wallet: &Wallet, mempool_sigs: BTreeSet<Vec<
         last_hash: chain.last_block_hash,
         utxo: chain.utxoset.iter().map(|(k, v)| (*k, *v)).collect(),
         index: index_of(chain, max_id),
+        ring: {
+            let lo = max_id.saturating_sub(2 * chain.genesis_period);
+            (lo..=max_id).map(|id| (id, chain.blockring.get_block_hashes_at_block_id(id).into_iter().collect::<BTreeSet<Hash>>())).filter(|(_, v)| !v.is_empty()).collect()
+        },
         blocks: chain.blocks.iter().map(|(h, b)| (*h, (b.id, b.in_longest_chain))).collect(),
         wallet_slips: wallet.slips.keys().cloned().collect(),
         wallet_unspent: wallet.unspent_slips.iter().cloned().collect(),
@@ -91,6 +97,12 @@ pub fn diff(a: &Snapshot, b: &Snapshot) -> Vec<String> {
             .collect();
         d.push(format!("chain index: {}", ch.join(" ")));
     }
+    if a.ring != b.ring {
+        let mut ids: BTreeSet<u64> = a.ring.keys().cloned().collect();
+        ids.extend(b.ring.keys().cloned());
+        let ch: Vec<String> = ids.iter().filter(|i| a.ring.get(*i) != b.ring.get(*i)).map(|i| format!("{}:{}->{} entries", i, a.ring.get(i).map(|v| v.len()).unwrap_or(0), b.ring.get(i).map(|v| v.len()).unwrap_or(0))).collect();
+        d.push(format!("block ring: {}", ch.join(" ")));
+    }
     if a.blocks != b.blocks {
         let gone = a.blocks.keys().filter(|k| !b.blocks.contains_key(*k)).count();
         let new = b.blocks.keys().filter(|k| !a.blocks.contains_key(*k)).count();
@@ -120,6 +132,9 @@ pub fn diff_kinds(a: &Snapshot, b: &Snapshot) -> Vec<&'static str> {
     }
     if a.index != b.index {
         k.push("index");
+    }
+    if a.ring != b.ring {
+        k.push("ring");
     }
     if a.blocks != b.blocks {
         k.push("blocks");
